@@ -138,6 +138,12 @@ def to_mutation(spec, e):
         return M.DeleteApplication()
     if op == 'sql':
         return M.SQLMutation(e['tag'], list(e['sql']), _noop_update)
+    if op == 'rename_app':
+        kw = {}
+        if e.get('model_names') is not None:
+            kw['model_names'] = list(e['model_names'])
+        return M.RenameAppLabel(e['app'], e['new_app'],
+                                legacy_app_label=e.get('legacy'), **kw)
     raise ValueError(op)
 
 
@@ -205,6 +211,27 @@ def apply_edit(spec, e):
         s[app] = {}
     elif op == 'sql':
         pass
+    elif op == 'rename_app':
+        new_app = e['new_app']
+        moved = list(s[app]) if e.get('model_names') is None \
+            else list(e['model_names'])
+        dest = s.setdefault(new_app, {})
+        for m in moved:
+            ms = s[app].pop(m)
+            # the tables stay where they are
+            ms.setdefault('meta', {})['db_table'] = S.model_table(
+                spec, app, m)
+            for fn, fd in ms['fields']:
+                if fd['kind'] == 'ManyToMany' and not fd.get('db_table'):
+                    fd['db_table'] = S.m2m_table(spec, app, m, fn, fd)
+            dest[m] = ms
+        for a2, mods2 in s.items():
+            for _n, ms in mods2.items():
+                for _fn, fd in ms['fields']:
+                    if fd.get('to'):
+                        ta, tm = fd['to'].split('.')
+                        if ta == app and tm in moved:
+                            fd['to'] = '%s.%s' % (new_app, tm)
     else:
         raise ValueError(op)
     return s
@@ -326,10 +353,17 @@ def gen_initial(rng, fdef, allow_callable=True):
     return None
 
 
-def gen_q(rng, mspec, depth=0):
+def gen_q(rng, mspec, depth=0, safe=False):
     ints = [n for n, f in mspec['fields'] if f['kind'] in INT_KINDS]
     if not ints:
         return None
+    if safe:
+        # satisfied by every row the row generator can produce
+        q = ['gte', rng.choice(ints), -9223372036854775808]
+        if depth < 1 and rng.random() < 0.3:
+            return [rng.choice(['and', 'or']), q,
+                    gen_q(rng, mspec, depth + 1, safe=True)]
+        return q
     if depth < 2 and rng.random() < 0.35:
         a = gen_q(rng, mspec, depth + 1)
         b = gen_q(rng, mspec, depth + 1)
@@ -341,7 +375,7 @@ def gen_q(rng, mspec, depth=0):
             rng.choice([-5, 0, 3, 100])]
 
 
-def gen_meta_value(rng, spec, app, mname, prop, uniq):
+def gen_meta_value(rng, spec, app, mname, prop, uniq, safe=False):
     """A new value for a Meta property, valid for the model's current fields."""
     mspec = spec[app][mname]
     cols = [n for n, f in mspec['fields']
@@ -384,7 +418,7 @@ def gen_meta_value(rng, spec, app, mname, prop, uniq):
             cur.pop(rng.randrange(len(cur)))
             return cur
         if rng.random() < 0.5:
-            q = gen_q(rng, mspec)
+            q = gen_q(rng, mspec, safe=safe)
             if not q:
                 return [] if cur else None
             cur.append({'type': 'check', 'name': 'ck_%s' % uniq(),
@@ -429,6 +463,23 @@ class SpecGen(object):
         self._n += 1
         return 'g%d' % self._n
 
+    def nondistinct(self, spec, app, mname, fname):
+        """May the column hold equal non-NULL values in several rows?"""
+        fd = S.get_field(spec, app, mname, fname)
+        if (app, mname, fname) in self.dup or fd['kind'] == 'Boolean':
+            return True
+        return fd['kind'] == 'ForeignKey' and not fd.get('unique')
+
+    def in_unique_group(self, spec, app, mname, fname):
+        meta = spec[app][mname].get('meta') or {}
+        for t in meta.get('unique_together') or []:
+            if fname in t:
+                return True
+        for c in meta.get('constraints') or []:
+            if c['type'] == 'unique' and fname in c['fields']:
+                return True
+        return False
+
     # -- specs
     def gen_spec(self, n_models=None):
         rng = self.rng
@@ -466,7 +517,7 @@ class SpecGen(object):
                                  'indexes', 'constraints'):
                         if rng.random() < 0.25:
                             v = gen_meta_value(rng, spec, app, mname, prop,
-                                               self.uniq)
+                                               self.uniq, safe=self.rows)
                             if v:
                                 spec[app][mname]['meta'][prop] = v
         if len(all_table_names(spec)) != sum(
@@ -542,6 +593,8 @@ class SpecGen(object):
             fdef = S.get_field(spec, app, mname, old)
             e = {'op': op, 'app': app, 'model': mname, 'old': old,
                  'new': rng.choice(free)}
+            if (app, mname, old) in self.dup:
+                self.dup.add((app, mname, e['new']))
             r = rng.random()
             if fdef['kind'] == 'ManyToMany':
                 if r < 0.3:
@@ -564,8 +617,8 @@ class SpecGen(object):
                 choices.append('max_length')
             if kind == 'Decimal':
                 choices += ['max_digits', 'decimals']
-            if kind not in ('Boolean', 'Text', 'OneToOne') and \
-                    (app, mname, name) not in self.dup:
+            if kind not in ('Boolean', 'Text', 'OneToOne') and not (
+                    self.rows and self.nondistinct(spec, app, mname, name)):
                 choices.append('unique')
             if kind in INT_KINDS + TEXT_KINDS and name not in refs:
                 choices.append('type')
@@ -576,6 +629,13 @@ class SpecGen(object):
                 if attr == 'null':
                     new = not fdef.get('null', False)
                     e['attrs']['null'] = new
+                    if not new and self.rows and (
+                            fdef.get('unique') or self.in_unique_group(
+                                spec, app, mname, name)):
+                        # a constant fill of NULLs in a unique column/group
+                        # legitimately fails on data
+                        del e['attrs']['null']
+                        continue
                     if not new:
                         if kind in ('ForeignKey', 'OneToOne'):
                             # needs an existing target pk: only safe w/o rows
@@ -632,15 +692,15 @@ class SpecGen(object):
         if op == 'change_meta':
             prop = rng.choice(['unique_together', 'index_together',
                                'indexes', 'constraints'])
-            v = gen_meta_value(rng, spec, app, mname, prop, self.uniq)
+            v = gen_meta_value(rng, spec, app, mname, prop, self.uniq,
+                               safe=self.rows)
             if v is None or v == ((ms.get('meta') or {}).get(prop) or []):
                 return None
             if prop in ('unique_together', 'constraints') and self.rows:
                 for t in (v if prop == 'unique_together' else
                           [c.get('fields') or [] for c in v]):
-                    if all((app, mname, f) in self.dup or
-                           S.get_field(spec, app, mname, f)['kind'] ==
-                           'Boolean' for f in t) and t:
+                    if t and all(self.nondistinct(spec, app, mname, f)
+                                 for f in t):
                         return None
             return {'op': op, 'app': app, 'model': mname, 'prop': prop,
                     'value': v}
@@ -659,6 +719,9 @@ class SpecGen(object):
                 table = 'tbl_%s' % self.uniq()
             if table != cur_table and table in all_table_names(spec):
                 return None
+            for (a2, m2, f2) in list(self.dup):
+                if (a2, m2) == (app, mname):
+                    self.dup.add((app, new, f2))
             return {'op': op, 'app': app, 'old': mname, 'new': new,
                     'db_table': table}
         if op == 'delete_model':
@@ -671,6 +734,16 @@ class SpecGen(object):
                 if [r for r in referrers(spec, app, m) if r[0] != app]:
                     return None
             return {'op': op, 'app': app}
+        if op == 'rename_app':
+            free = [a for a in ('app1', 'app2', 'app3')
+                    if not spec.get(a)]
+            if not free:
+                return None
+            e = {'op': op, 'app': app, 'new_app': rng.choice(free)}
+            if len(spec[app]) > 1 and rng.random() < 0.3:
+                e['model_names'] = sorted(rng.sample(
+                    list(spec[app]), rng.randint(1, len(spec[app]) - 1)))
+            return e
         return None
 
 
